@@ -509,6 +509,7 @@ func toSubdomainURL(hostname, path string, r *http.Request, inlineDNSLink bool, 
 	if err != nil {
 		return "", err
 	}
+	u.Fragment = r.URL.Fragment
 	u.RawFragment = r.URL.RawFragment
 	u.RawQuery = r.URL.RawQuery
 	if rest != "" {
